@@ -1,9 +1,9 @@
 import Gmx.Model.Borrowing
 import Gmx.Driver.Util
--- ENGINE borr borrEngine stateless
+-- ENGINE borr Borr.borrEngine stateless
 /-! driver engine `borr` — C13 -/
-namespace Gmx.Drv
-open Gmx Gmx.Perp
+namespace Gmx.Drv.Borr
+open Gmx Gmx.Perp Gmx.Drv
 
 def borrShowErr : BErr → String
   | .comp => "err comp" | .conv => "err conv" | .ovf => "err ovf"
@@ -75,4 +75,4 @@ def borrEngine (args : List String) : String :=
     | _, _ => "bad-op"
   | _ => "bad-op"
 
-end Gmx.Drv
+end Gmx.Drv.Borr
